@@ -131,6 +131,7 @@ class SimClock(object):
             self.now += 500.0
             self.jump_at = None
             self.world.probe("clock_jump_past_warn")
+            self.world.fault("clock_jump_fwd")
         return self.now
 
 
@@ -376,6 +377,7 @@ class PlaceEngine(object):
                     rng = prgen.seeded(t)
                 else:
                     w.probe("adversarial_rng")
+                    w.fault("adversarial_prng_stream")
                     rng = AdversarialRandom(t.subseed(), mode)
                 kwargs = {"kernel": self.wrap_kernel(real), "random": rng,
                           "effort": effort}
@@ -396,6 +398,7 @@ class PlaceEngine(object):
                     self.judge(placements, "callback #%d" % calls[0])
                     if cancel_at is not None and calls[0] >= cancel_at:
                         w.probe("cancelled")
+                        w.fault("cancellation")
                         return False
                     return [None, True][calls[0] % 2]
                 kwargs["on_temperature_change"] = on_change
